@@ -276,6 +276,17 @@ impl Run {
         cov.insert("repo_head".into(), json!(rev));
         cov.insert("repo_diff_sha256".into(), json!(diff));
 
+        // a run that stopped at a violation (or a cap) before covering enough for its level's
+        // required keys still leaves a schema-valid file: level "other" with an explanation
+        let nontriv = self.nontrivial.load(Ordering::Relaxed);
+        let thin = match level {
+            "model_checking" => states == 0 || transitions == 0,
+            _ => evals.max(states + transitions) == 0 || nontriv < 2,
+        };
+        let level = if thin { "other" } else { level };
+        if thin {
+            cov.insert("explanation".into(), json!(format!("the run ended after {} states / {} transitions / {} evaluations ({} violation(s) reported, caps: {:?}); too little was covered for the level normally claimed by this check, the numbers above are what was measured", states, transitions, evals, by_sig.len(), self.caps.lock().unwrap().clone())));
+        }
         let ev = json!({
             "property_id": self.id,
             "tier": self.tier.name(),
